@@ -37,7 +37,8 @@ import tempfile
 import time
 
 HERE = os.path.dirname(os.path.dirname(os.path.abspath(__file__)))
-EVIDENCE_DIR = os.path.join(HERE, "evidence")
+# mutation self-tests (tools/seeded_matrix.py) point this elsewhere so that they never touch the real evidence
+EVIDENCE_DIR = os.environ.get("VERIF_EVIDENCE_DIR") or os.path.join(HERE, "evidence")
 REPLAY_DIR = os.path.join(EVIDENCE_DIR, "replays")
 KNOWN_FILE = os.path.join(HERE, "known_findings.json")
 PY = "/venv/bin/python"
